@@ -355,6 +355,10 @@ theorem cosW_eq (v1 v2 w : List ℝ) (h1 : v1.length = w.length) (h2 : v2.length
   rw [scalarW_eq v1 v2 w h1 h2, normW_eq v1 w h1, normW_eq v2 w h2]
   rfl
 
+theorem sdW_of_varW (v w : List ℝ) (u nw : Bool) (x : ℝ) (h : varW v w u nw = .ok x) :
+    sdW v w u nw = .ok (Real.sqrt x) := by
+  unfold sdW; rw [h]; rfl
+
 /-! ### the value of the median -/
 
 theorem sortVals_pairwise_le (v : List ℝ) : (sortVals v).Pairwise (· ≤ ·) :=
